@@ -47,6 +47,11 @@ type pfbOpt struct {
 	readErr string
 	hdrK    int
 	hdrErr  string
+	// ctl: the control state the iteration starts in (ext_g_pfb.go); nil: the state that plays
+	// the role given by the state argument (0 header, 1..3 segment states).  isHdr: ctl is the
+	// header state (whatever is read is a header).
+	ctl   pfbCtl
+	isHdr bool
 }
 
 func isErrSym(v sv) bool {
@@ -55,21 +60,29 @@ func isErrSym(v sv) bool {
 
 func (c *Ctx) pfbIterationOpt(fn *ssa.Function, H *ssa.BasicBlock, state int64, hdr map[int]int64, cmp int, opt pfbOpt) pfbIter {
 	lenZero := opt.lenZero
-	T := c.typeObj("pfb", "pfbReader")
-	_ = T
-	stateF, lenF, tailF, srcF := c.fld("pfb.state"), c.fld("pfb.len"), c.fld("pfb.tail"), c.fld("pfb.r")
+	lenF, tailF, srcF := c.fld("pfb.len"), c.fld("pfb.tail"), c.fld("pfb.r")
+	ctl, isHdrState := opt.ctl, opt.isHdr
+	if ctl == nil {
+		ctl, isHdrState = c.pfbRoles(fn, H).role(state), state == 0
+		if ctl == nil {
+			return pfbIter{why: fmt.Sprintf("the state after a header of type %d could not be determined", state)}
+		}
+	}
 	ev := &ssaEval{c: c, bind: map[ssa.Value]sv{}, mem: map[string]sv{}}
 	hdrBase := "" // address of the buffer the header was read into
 	ev.load = func(ld *ssa.UnOp, addr sv) (sv, bool) {
 		a := addr.s
+		if strings.HasPrefix(a, "r.") {
+			if v, ok := ctl[a[2:]]; ok {
+				return v, true
+			}
+		}
 		switch {
-		case strings.HasSuffix(a, "."+stateF):
-			return intV(state), true
-		case strings.HasSuffix(a, "."+lenF):
+		case pfbFieldG(a, lenF):
 			return symV("rem"), true
-		case strings.HasSuffix(a, "."+tailF):
+		case pfbFieldG(a, tailF):
 			return symV("tail"), true
-		case strings.HasSuffix(a, "."+srcF):
+		case pfbFieldG(a, srcF):
 			return symV("src"), true
 		case strings.HasPrefix(a, "global:"):
 			i := strings.LastIndex(a, ".")
@@ -101,7 +114,7 @@ func (c *Ctx) pfbIterationOpt(fn *ssa.Function, H *ssa.BasicBlock, state int64, 
 	// the length decoded from the header in this iteration (the last value stored in the length cell)
 	decodedLen := func() (sv, bool) {
 		for i := len(ev.effects) - 1; i >= 0; i-- {
-			if ef := ev.effects[i]; ef.what == "store" && strings.HasSuffix(ef.addr, "."+lenF) {
+			if ef := ev.effects[i]; ef.what == "store" && pfbFieldG(ef.addr, lenF) {
 				return ef.args[0], true
 			}
 		}
@@ -244,7 +257,7 @@ func (c *Ctx) pfbIterationOpt(fn *ssa.Function, H *ssa.BasicBlock, state int64, 
 					}
 				}
 			}
-			if state == 0 {
+			if isHdrState {
 				// in the header state whatever is read is the header
 				isHeader = true
 				if a := args[1]; a.op == "slice" && len(a.args) == 3 && a.args[0].k == svAddr && a.args[1].s == "_" {
@@ -312,9 +325,13 @@ func (c *Ctx) pfbTables() {
 		c.undecided("PFB-STATES", fname, "main loop", fn.Pos(), "the decoder has no main loop")
 		return
 	}
-	stateF, lenF := c.fld("pfb.state"), c.fld("pfb.len")
+	lenF := c.fld("pfb.len")
+	roles := c.pfbRoles(fn, H)
 	// ---- header: all 65536 (marker, type) pairs
 	bad := ""
+	if len(roles.why) > 0 {
+		bad = roles.why[0]
+	}
 	nAccepted := 0
 	wantLen := term("|", symV("b2"), term("<<", symV("b3"), intV(8)), term("<<", symV("b4"), intV(16)), term("<<", symV("b5"), intV(24)))
 	for b0 := int64(0); b0 < 256 && bad == ""; b0++ {
@@ -322,12 +339,9 @@ func (c *Ctx) pfbTables() {
 			it := c.pfbIteration(fn, H, 0, map[int]int64{0: b0, 1: b1}, 2)
 			valid := b0 == 0x80 && b1 >= 1 && b1 <= 3
 			rejected := len(it.ret) == 2 && it.ret[1].s == "ErrInvalidPFB"
-			var st, ln sv
+			var ln sv
 			for _, ef := range it.effects {
-				if ef.what == "store" && strings.HasSuffix(ef.addr, "."+stateF) {
-					st = ef.args[0]
-				}
-				if ef.what == "store" && strings.HasSuffix(ef.addr, "."+lenF) {
+				if ef.what == "store" && pfbFieldG(ef.addr, lenF) {
 					ln = ef.args[0]
 				}
 			}
@@ -338,9 +352,6 @@ func (c *Ctx) pfbTables() {
 				bad = fmt.Sprintf("header bytes %#02x %#02x are rejected", b0, b1)
 			case valid:
 				nAccepted++
-				if st.k != svInt || st.i != b1 {
-					bad = fmt.Sprintf("header type %d sets the decoder state to %s, expected %d", b1, st, b1)
-				}
 				if b1 != 3 && ln.String() != wantLen.String() {
 					bad = fmt.Sprintf("the segment length is computed as %s, expected the little-endian value %s", ln, wantLen)
 				}
@@ -362,15 +373,10 @@ func (c *Ctx) pfbTables() {
 				bad = fmt.Sprintf("header type %d with the four bytes after the type %s: the iteration cannot be followed to its end (%s)", b1, cell, it.why)
 				break
 			}
-			var st sv
-			for _, ef := range it.effects {
-				if ef.what == "store" && strings.HasSuffix(ef.addr, "."+stateF) {
-					st = ef.args[0]
-				}
-			}
-			okState := st.k == svInt && (st.i == b1 || (b1 != 3 && lz > 0 && st.i == 0))
+			st, okSt := pfbApply(roles.hdr, it.effects)
+			okState := okSt && (st.String() == roles.seg[b1].String() || (b1 != 3 && lz > 0 && st.String() == roles.hdr.String()))
 			if !okState {
-				bad = fmt.Sprintf("header type %d with the four bytes after the type %s leaves the decoder in state %s, expected %d", b1, cell, st, b1)
+				bad = fmt.Sprintf("header type %d with the four bytes after the type %s leaves the decoder in state %s, expected %s", b1, cell, st, roles.seg[b1])
 				if b1 == 3 {
 					bad += ": the end marker has no length field, whatever follows it must not take the decoder out of the final state"
 				}
@@ -378,36 +384,42 @@ func (c *Ctx) pfbTables() {
 			}
 		}
 	}
-	c.check(bad == "" && nAccepted == 3, "PFB-HEADER", fname, "exactly marker 0x80 with type 1, 2 or 3 is accepted, anything else gives ErrInvalidPFB; the type becomes the state; length = little-endian bytes 2..5", fn.Pos(), "65536 header prefixes evaluated", "header: "+bad)
-
-	// ---- states: every value the state can take is handled (no spinning)
-	vals := map[int64]bool{1: true, 2: true, 3: true, 0: true}
-	for _, f := range c.modFuncs {
-		if f.Pkg == nil || f.Pkg.Pkg.Name() != "pfb" {
-			continue
-		}
-		eachInstr(f, func(ins ssa.Instruction) {
-			if st, ok := ins.(*ssa.Store); ok && isFieldAddr(st.Addr, c.typeObj("pfb", "pfbReader"), stateF) {
-				if k, isC := constInt(st.Val); isC {
-					vals[k] = true
+	// ---- the type becomes the state: the state after a header of type 1 reads text (one plain
+	// read of the source), the state after type 2 reads binary data (io.ReadFull), the state after
+	// type 3 is final (end of file without reading)
+	if bad == "" {
+		for t, want := range map[int64]string{1: "one plain read (text)", 2: "one io.ReadFull (binary)", 3: "io.EOF without reading (final)"} {
+			it := c.pfbIterationOpt(fn, H, t, nil, -1, pfbOpt{hdrK: -1})
+			plain, full := 0, 0
+			for _, ef := range it.effects {
+				switch ef.what {
+				case "read":
+					plain++
+				case "readfull":
+					full++
 				}
 			}
-		})
-	}
-	var list []int64
-	for v := range vals {
-		list = append(list, v)
-	}
-	sort.Slice(list, func(i, j int) bool { return list[i] < list[j] })
-	var spin []string
-	for _, v := range list {
-		it := c.pfbIteration(fn, H, v, map[int]int64{0: 0x80, 1: 1}, 2)
-		if it.back && len(it.effects) == 0 {
-			spin = append(spin, fmt.Sprint(v))
+			eof := len(it.ret) == 2 && it.ret[1].k == svSym && it.ret[1].s == "EOF"
+			ok := map[int64]bool{1: plain == 1 && full == 0 && !eof, 2: plain == 0 && full == 1 && !eof, 3: plain == 0 && full == 0 && eof}[t]
+			if !ok {
+				bad = fmt.Sprintf("header type %d puts the decoder into state %s, in which an iteration performs %d plain read(s), %d io.ReadFull and returns %v; expected %s", t, roles.seg[t], plain, full, it.ret, want)
+				break
+			}
 		}
 	}
-	c.check(len(spin) == 0 && len(list) >= 5, "PFB-STATES", fname, "every value the state can take is handled by the main loop", fn.Pos(), fmt.Sprintf("states %v each read, emit or return", list),
-		fmt.Sprintf("in state(s) %v an iteration of the main loop does nothing: the `for len(b) > 0` loop spins forever", spin))
+	c.check(bad == "" && nAccepted == 3, "PFB-HEADER", fname, "exactly marker 0x80 with type 1, 2 or 3 is accepted, anything else gives ErrInvalidPFB; the type becomes the state; length = little-endian bytes 2..5", fn.Pos(), "65536 header prefixes evaluated", "header: "+bad)
+
+	// ---- states: every control state the decoder can get into is handled (no spinning)
+	list := c.pfbStoredStates(roles)
+	var spin []string
+	for _, v := range list {
+		it := c.pfbIterationOpt(fn, H, 0, map[int]int64{0: 0x80, 1: 1}, 2, pfbOpt{hdrK: -1, ctl: v, isHdr: v.String() == roles.hdr.String()})
+		if it.back && len(it.effects) == 0 {
+			spin = append(spin, v.String())
+		}
+	}
+	c.check(len(spin) == 0 && len(list) >= 5 && len(roles.pend) > 0, "PFB-STATES", fname, "every value the state can take is handled by the main loop", fn.Pos(), fmt.Sprintf("states %v each read, emit or return", list),
+		fmt.Sprintf("in state(s) %v an iteration of the main loop does nothing: the `for len(b) > 0` loop spins forever (states considered: %d, pending-digit states found: %d)", spin, len(list), len(roles.pend)))
 
 	// ---- text state: at most min(len(b), remaining) bytes are requested
 	var tbad []string
@@ -447,9 +459,75 @@ func (c *Ctx) pfbExpandRule() *pfbEncoders {
 	if H == nil {
 		return enc
 	}
-	stateF, lenF, tailF, srcF := c.fld("pfb.state"), c.fld("pfb.len"), c.fld("pfb.tail"), c.fld("pfb.r")
+	roles := c.pfbRoles(fn, H)
 	var bad []string
+	if roles.seg[2] == nil {
+		bad = append(bad, "the state of a binary segment could not be determined")
+	}
 	for _, n := range []int{1, 2, 4, 5} {
+		if roles.seg[2] == nil {
+			break
+		}
+		x := c.pfbExpandOnce(fn, H, n, 1000, roles.seg[2])
+		for g := range x.enc.fns {
+			enc.fns[g] = true
+		}
+		for t := range x.enc.tables {
+			enc.tables[t] = true
+		}
+		if x.why != "" {
+			bad = append(bad, x.why)
+			continue
+		}
+		var want []string
+		for i := 0; i < n; i++ {
+			d := fmt.Sprintf("d%d", i/2)
+			if i%2 == 0 {
+				want = append(want, "hex(>>u8("+d+",4))")
+			} else {
+				want = append(want, "hex(&u8(15,"+d+"))")
+			}
+		}
+		if strings.Join(x.got, " ") != strings.Join(want, " ") {
+			bad = append(bad, fmt.Sprintf("a caller buffer of %d byte(s) ends up as [%s], expected [%s]", n, strings.Join(x.got, " "), strings.Join(want, " ")))
+		}
+		// bytes delivered, pending nibble
+		if x.hasDelivered && (x.delivered.k != svInt || x.delivered.i != int64(n)) {
+			bad = append(bad, fmt.Sprintf("a caller buffer of %d byte(s) is reported as %s bytes delivered", n, x.delivered))
+		}
+		if n%2 == 1 {
+			// the last digit is parked, and the decoder is left in a state that is not the
+			// binary state it was in (PFB-LEFTOVER decides that this state emits the digit first)
+			wantTail := fmt.Sprintf("hex(&u8(15,d%d))", n/2)
+			if x.tail != wantTail || !x.ctlOK || x.ctlAfter.String() == roles.seg[2].String() {
+				bad = append(bad, fmt.Sprintf("an odd buffer of %d byte(s) leaves the pending digit %q in state %s, expected %s in a leftover state", n, x.tail, x.ctlAfter, wantTail))
+			}
+		} else if x.tail != "" || !x.ctlOK || x.ctlAfter.String() != roles.seg[2].String() {
+			bad = append(bad, fmt.Sprintf("an even buffer of %d byte(s) with data left in the segment parks a digit (%q) or leaves the binary state (%s)", n, x.tail, x.ctlAfter))
+		}
+	}
+	c.check(len(bad) == 0, "PFB-EXPAND", fname, "in-place expansion from the back: position i gets the high (i even) or low (i odd) nibble of byte i/2; an odd buffer keeps the last digit pending", fn.Pos(), "buffers of 1, 2, 4, 5 bytes evaluated", "hex expansion: "+joinMax(bad, 2))
+	return enc
+}
+
+type pfbExpandG struct {
+	got          []string // the caller's buffer afterwards
+	delivered    sv       // the byte count carried into the next iteration
+	hasDelivered bool
+	tail         string // what was stored as pending digit ("" if nothing)
+	ctlAfter     pfbCtl
+	ctlOK        bool
+	why          string
+	enc          *pfbEncoders
+}
+
+// pfbExpandOnce evaluates one pass of the main loop in the control state ctl (the binary state)
+// for a caller buffer of n symbolic bytes and a segment with rem bytes left.
+func (c *Ctx) pfbExpandOnce(fn *ssa.Function, H *ssa.BasicBlock, n int, rem int64, ctl pfbCtl) pfbExpandG {
+	enc := &pfbEncoders{fns: map[*ssa.Function]bool{}, tables: map[string]bool{}}
+	res := pfbExpandG{enc: enc}
+	lenF, tailF, srcF := c.fld("pfb.len"), c.fld("pfb.tail"), c.fld("pfb.r")
+	{
 		ev := &ssaEval{c: c, bind: map[ssa.Value]sv{}, mem: map[string]sv{}}
 		var cells []sv
 		for i := 0; i < n; i++ {
@@ -463,14 +541,17 @@ func (c *Ctx) pfbExpandRule() *pfbEncoders {
 		}
 		ev.load = func(ld *ssa.UnOp, addr sv) (sv, bool) {
 			a := addr.s
+			if strings.HasPrefix(a, "r.") {
+				if v, ok := ctl[a[2:]]; ok {
+					return v, true
+				}
+			}
 			switch {
-			case strings.HasSuffix(a, "."+stateF):
-				return intV(2), true
-			case strings.HasSuffix(a, "."+lenF):
-				return intV(1000), true
-			case strings.HasSuffix(a, "."+tailF):
+			case pfbFieldG(a, lenF):
+				return intV(rem), true
+			case pfbFieldG(a, tailF):
 				return symV("tail"), true
-			case strings.HasSuffix(a, "."+srcF):
+			case pfbFieldG(a, srcF):
 				return symV("src"), true
 			}
 			return sv{}, false
@@ -501,8 +582,8 @@ func (c *Ctx) pfbExpandRule() *pfbEncoders {
 		fr.vals[fn.Params[1]] = buf
 		at, _, _ := ev.runBlocks(fr, fn.Blocks[0], nil, func(next, from *ssa.BasicBlock) bool { return next == H })
 		if at != H {
-			bad = append(bad, "main loop not reached: "+ev.why)
-			continue
+			res.why = "main loop not reached: " + ev.why
+			return res
 		}
 		var nPhi *ssa.Phi
 		for _, ins := range H.Instrs {
@@ -524,51 +605,27 @@ func (c *Ctx) pfbExpandRule() *pfbEncoders {
 			return next == H
 		})
 		if !back {
-			bad = append(bad, fmt.Sprintf("buffer of %d byte(s): the pass does not come back to the loop (%s)", n, ev.why))
-			continue
+			res.why = fmt.Sprintf("buffer of %d byte(s): the pass does not come back to the loop (%s)", n, ev.why)
+			return res
 		}
-		var got, want []string
 		for i := 0; i < n; i++ {
-			got = append(got, ev.lists[buf.s][i].String())
-			d := fmt.Sprintf("d%d", i/2)
-			if i%2 == 0 {
-				want = append(want, "hex(>>u8("+d+",4))")
-			} else {
-				want = append(want, "hex(&u8(15,"+d+"))")
-			}
+			res.got = append(res.got, ev.lists[buf.s][i].String())
 		}
-		if strings.Join(got, " ") != strings.Join(want, " ") {
-			bad = append(bad, fmt.Sprintf("a caller buffer of %d byte(s) ends up as [%s], expected [%s]", n, strings.Join(got, " "), strings.Join(want, " ")))
-		}
-		// bytes delivered, pending nibble
 		if nPhi != nil {
 			for i, p := range H.Preds {
 				if p == from {
-					if v := ev.val(fr, nPhi.Edges[i]); v.k != svInt || v.i != int64(n) {
-						bad = append(bad, fmt.Sprintf("a caller buffer of %d byte(s) is reported as %s bytes delivered", n, v))
-					}
+					res.delivered, res.hasDelivered = ev.val(fr, nPhi.Edges[i]), true
 				}
 			}
 		}
-		if n%2 == 1 {
-			tail := ""
-			st := int64(0)
-			for _, ef := range ev.effects {
-				if ef.what == "store" && strings.HasSuffix(ef.addr, "."+tailF) {
-					tail = ef.args[0].String()
-				}
-				if ef.what == "store" && strings.HasSuffix(ef.addr, "."+stateF) && ef.args[0].k == svInt {
-					st = ef.args[0].i
-				}
-			}
-			wantTail := fmt.Sprintf("hex(&u8(15,d%d))", n/2)
-			if tail != wantTail || st != -1 {
-				bad = append(bad, fmt.Sprintf("an odd buffer of %d byte(s) leaves the pending digit %q in state %d, expected %s in the leftover state", n, tail, st, wantTail))
+		for _, ef := range ev.effects {
+			if ef.what == "store" && pfbFieldG(ef.addr, tailF) {
+				res.tail = ef.args[0].String()
 			}
 		}
+		res.ctlAfter, res.ctlOK = pfbApply(ctl, ev.effects)
 	}
-	c.check(len(bad) == 0, "PFB-EXPAND", fname, "in-place expansion from the back: position i gets the high (i even) or low (i odd) nibble of byte i/2; an odd buffer keeps the last digit pending", fn.Pos(), "buffers of 1, 2, 4, 5 bytes evaluated", "hex expansion: "+joinMax(bad, 2))
-	return enc
+	return res
 }
 
 // pfbEncoders: the nibble encoders met by the evaluation of the binary state — module functions
